@@ -12,4 +12,12 @@ def run(rep, fb, tier):
     run_family("C08", rep, fb, tier, EXTRAS)
 
 
-EXTRAS = []
+from ..rules import fintab
+
+
+EXTRAS = [
+    lambda rep, fb, tier: fintab.rule_promotion(rep, fb),
+    lambda rep, fb, tier: fintab.rule_dtype_tables(rep, fb),
+    lambda rep, fb, tier: st.rule_family(rep, fb),
+    lambda rep, fb, tier: st.rule_clone(rep, fb),
+]
